@@ -11,6 +11,9 @@ rows = []
 for d in sorted(glob.glob(os.path.join(ROOT, "seeded", "C*"))):
     meta = json.load(open(os.path.join(d, "meta.json")))
     prop = os.path.basename(d)[:3]
+    if str(meta.get("assessment", "")).lower().startswith("not counted"):
+        print("NOT-COUNTED " + os.path.basename(d), meta["assessment"][:120], flush=True)
+        continue
     env = dict(os.environ)
     if "base_rev" in meta:
         env["SEED_BASE_REV"] = meta["base_rev"].split()[0]
